@@ -22,7 +22,10 @@ RULE = (
     " memory-indirect transfers; patches include temporary labels,"
     " inline data, data for other sections, '.balign 1',"
     " operand addends, ARM64 literal loads; 12% of the modules hold one"
-    " or two zero-sized code blocks (left by an earlier rewrite)."
+    " or two zero-sized code blocks (left by an earlier rewrite), with"
+    " edits placed around them; 12% of the x86-64 patches are written in"
+    " Intel syntax; patches may name labels of patches applied earlier;"
+    " label-only contents for another section are an expected refusal."
 )
 ASSUMPTIONS = [
     "vocabulary byte table (tools/selftest_vocab.py) matches LLVM-MC and capstone",
